@@ -147,4 +147,124 @@ func runC33(c *eng.Ctx) {
 	}
 	// ---- R4 iterators reused across series start clean ----
 	c.AssignsAllFields("R4", "promql:storageSeriesIterator.reset", "promql:storageSeriesIterator", nil)
+	// ---- R5 an index one below a variable is guarded: v ≥ 1 is established by an enclosing test or by the loop that runs v ----
+	// (promql package only: a panic here surfaces as an internal "unexpected error" of a valid query)
+	{
+		sites := p.FindAll(eng.Node("index v-1", func(g *eng.Graph, n ast.Node) bool {
+			if g.Pkg.PkgPath != "github.com/prometheus/prometheus/promql" {
+				return false
+			}
+			ix, ok := n.(*ast.IndexExpr)
+			if !ok {
+				return false
+			}
+			be, ok := ix.Index.(*ast.BinaryExpr)
+			if !ok || be.Op.String() != "-" || nodeText(be.Y) != "1" {
+				return false
+			}
+			_, isIdent := be.X.(*ast.Ident)
+			return isIdent
+		}))
+		declared := map[string]string{
+			"promql:vectorByValueHeap.Pop|n":        "container/heap calls Pop only on a non-empty heap; n = len(old)",
+			"promql:vectorByReverseValueHeap.Pop|n": "container/heap calls Pop only on a non-empty heap; n = len(old)",
+		}
+		bySite := map[string]bool{}
+		for _, o := range sites {
+			v := nodeText(o.Node.(*ast.IndexExpr).Index.(*ast.BinaryExpr).X)
+			key := o.In + "|" + v
+			if bySite[key+"|"+p.Pos(o.Node.Pos())] {
+				continue
+			}
+			bySite[key+"|"+p.Pos(o.Node.Pos())] = true
+			what := "index " + v + "-1 in " + eng.Short(o.In) + " is reached only with " + v + " ≥ 1"
+			if why, ok := declared[key]; ok {
+				c.Pass("R5", o.In, what, "declared: "+why)
+				continue
+			}
+			c.Check("R5", o.In, what, indexGuarded(o.G, o.Node, v), p.Pos(o.Node.Pos()), "no enclosing test or loop establishes "+v+" > 0")
+		}
+		c.Check("R5", "promql", "index-below-variable sites found (≥ 10 confirmed by reading)", len(bySite) >= 10, "", fmt.Sprint(len(bySite)))
+	}
+}
+
+// indexGuarded: some enclosing if (true arm) or for condition has a conjunct whose linear normal form is
+// v > 0 / v ≥ 1 (or a stronger lower bound), or v is the variable of an enclosing for loop initialised
+// to a constant ≥ 1 and only incremented.
+func indexGuarded(g *eng.Graph, n ast.Node, v string) bool {
+	ok := false
+	var stack []ast.Node
+	done := false
+	ast.Inspect(g.Body, func(x ast.Node) bool {
+		if done {
+			return false
+		}
+		if x == nil {
+			stack = stack[:len(stack)-1]
+			return true
+		}
+		stack = append(stack, x)
+		if x != n {
+			return true
+		}
+		done = true
+		lower := func(e ast.Expr) bool {
+			var conj func(e ast.Expr) bool
+			conj = func(e ast.Expr) bool {
+				e = ast.Unparen(e)
+				if be, isB := e.(*ast.BinaryExpr); isB && be.Op.String() == "&&" {
+					return conj(be.X) || conj(be.Y)
+				}
+				l, isL := eng.LinearCmp(g.Info, e)
+				if !isL {
+					return false
+				}
+				// -1*v +k < 0 with k ≥ 0  ⇔  v > k  (k = 0: v > 0)
+				return l == "-1*"+v+" < 0" || strings.HasPrefix(l, "-1*"+v+" +") && strings.HasSuffix(l, " < 0") && !strings.Contains(strings.TrimSuffix(strings.TrimPrefix(l, "-1*"+v+" +"), " < 0"), "*")
+			}
+			return conj(e)
+		}
+		for i := len(stack) - 2; i >= 0; i-- {
+			switch s := stack[i].(type) {
+			case *ast.IfStmt:
+				if stack[i+1] == ast.Node(s.Body) && lower(s.Cond) {
+					ok = true
+				}
+				// `a && b[v-1]` inside the condition itself: the left conjuncts guard the right ones
+				if stack[i+1] == ast.Node(s.Cond) && lower(s.Cond) {
+					ok = true
+				}
+			case *ast.ForStmt:
+				if s.Cond != nil && lower(s.Cond) {
+					ok = true
+				}
+				if as, isA := s.Init.(*ast.AssignStmt); isA && len(as.Lhs) == 1 && nodeText(as.Lhs[0]) == v {
+					if t := nodeText(as.Rhs[0]); t != "0" && len(t) > 0 && t[0] >= '1' && t[0] <= '9' {
+						if inc, isI := s.Post.(*ast.IncDecStmt); isI && nodeText(inc.X) == v && inc.Tok.String() == "++" {
+							ok = true
+						}
+					}
+				}
+			case *ast.BinaryExpr:
+				if s.Op.String() == "&&" && stack[i+1] == ast.Node(s.Y) && lower(s.X) {
+					ok = true
+				}
+			case *ast.CaseClause:
+				// an arm of a tagless switch: `case v > 0 && …:`
+				if len(s.List) == 1 && i > 0 {
+					inBody := false
+					for _, st := range s.Body {
+						if stack[i+1] == ast.Node(st) {
+							inBody = true
+						}
+					}
+					if sw, isSw := stack[i-2].(*ast.SwitchStmt); isSw && sw.Tag == nil && inBody && lower(s.List[0]) {
+						ok = true
+					}
+				}
+			}
+		}
+		return false
+	})
+	return ok
 }
